@@ -1,5 +1,6 @@
 import Infretis.Model.CodecBoxData
 import Infretis.Lemmas.CodecFixed
+import Infretis.Lemmas.CodecUni
 import Infretis.Lemmas.CodecBox
 /-!
 C19: the CP2K cell reader `read_box_data` (`Infretis.BoxData`, Model/CodecBoxData.lean).
@@ -124,6 +125,29 @@ theorem splitWs_vecLine (k : Key) (v : List Int) : splitWs (vecLine k v) = k.tex
     simp only [List.flatMap_cons, List.cons_append, List.head?_cons, Option.some.injEq] at hc
     subst hc; decide
 
+/-- a printed line holds no non-ASCII white space … -/
+theorem plain_vecLine (k : Key) (v : List Int) : Infretis.CodecUni.Plain (vecLine k v) := by
+  open Infretis.CodecUni in
+  unfold vecLine
+  refine Plain_append (by cases k <;> (intro c hc; revert c; decide)) ?_
+  intro c hc
+  obtain ⟨x, _, hx⟩ := List.mem_flatMap.1 hc
+  rcases List.mem_cons.1 hx with rfl | hx
+  · decide
+  · unfold intTok Infretis.Codec.intDigits at hx
+    have hd : ∀ n, ∀ c ∈ natDigits n, exotic c = false := fun n c h => Plain_natDigits n c h
+    by_cases hneg : x < 0
+    · simp only [hneg, if_true, List.mem_cons] at hx
+      rcases hx with rfl | hx
+      · decide
+      · exact hd _ c hx
+    · simp only [hneg, if_false] at hx
+      exact hd _ c hx
+
+/-- … so Python's split of it is the ASCII split -/
+theorem splitPy_vecLine (k : Key) (v : List Int) : splitPy (vecLine k v) = k.text :: v.map intTok := by
+  rw [splitPy, Infretis.CodecUni.normT_plain (plain_vecLine k v), splitWs_vecLine]
+
 /-- a printed line with at least one number starts with its own key followed by a blank, and with no other key -/
 theorem startsKey_vecLine (k k' : Key) (x : Int) (r : List Int) :
     startsKey k' (vecLine k (x :: r)) = decide (k' = k) := by
@@ -132,8 +156,8 @@ theorem startsKey_vecLine (k k' : Key) (x : Int) (r : List Int) :
 /-- **one printed vector line sets exactly its own entry** -/
 theorem stepKeys_vecLine (k : Key) (hk : k ≠ .PERIODIC) (x : Int) (r : List Int) (d : BoxDict) :
     stepKeys (vecLine k (x :: r)) allKeys d = .ok (setVec d k (x :: r)) := by
-  have hn : nums (splitWs (vecLine k (x :: r))).tail = .ok (x :: r) := by
-    rw [splitWs_vecLine]; exact nums_intToks _
+  have hn : nums (splitPy (vecLine k (x :: r))).tail = .ok (x :: r) := by
+    rw [splitPy_vecLine]; exact nums_intToks _
   cases k <;> simp [stepKeys, allKeys, stepKey, startsKey_vecLine, hn, setVec] at hk ⊢
 
 theorem collect_append : ∀ (l1 l2 : List Str) (d : BoxDict),
